@@ -20,7 +20,15 @@ import struct
 import sys
 
 
+_ROOT = ['']
+
+
 def _perm_key(seed, path, name):
+    # the scratch directory has a random name: key the permutation on the path below it
+    if _ROOT[0] and path.startswith(_ROOT[0]):
+        path = path[len(_ROOT[0]):]
+    if seed == -1:
+        return name          # the reference listing: sorted by name (never the file system's own order)
     h = hashlib.blake2b(f'{seed}\0{path}\0{name}'.encode('utf-8', 'surrogateescape'), digest_size=8).digest()
     return struct.unpack('<Q', h)[0]
 
@@ -28,6 +36,7 @@ def _perm_key(seed, path, name):
 def install(cfg):
     stats = {'listdir': 0, 'scandir': 0, 'now': 0, 'time': 0}
     seed = cfg.get('listing_seed')
+    _ROOT[0] = cfg.get('listing_root') or ''
     if seed is not None:
         real_listdir = os.listdir
         real_scandir = os.scandir
